@@ -47,6 +47,34 @@ def to_scenario(sid, hist, store):
     return {"id": sid, "shards": n, "servers": ["A", "B"], "store": store, "followersBlocked": True, "upstreams": upstreams, "steps": steps}
 
 
+def slow_stop_scenarios(start, n):
+    """leadership is lost while stopping the shard's store is SLOW (the API refuses the flush, the store is retried every 2 s): for as
+    long as that lasts - the lease expires and the other server takes over meanwhile - the old leader must refuse"""
+    out = []
+    for i in range(n):
+        nsh = 2
+        ups = {u: name_for(u % nsh, nsh, u + 20) for u in (0, 1)}
+        upstreams = [{"name": ups[u], "type": "mif", "strategy": "globalAllocate" if (u + i) % 2 else "globalCount", "max": 100, "burst": 0} for u in (0, 1)]
+        sh = i % nsh
+        u = ups[sh]
+
+        def call(srv, inst):
+            o = [{"k": "hb", "srv": srv, "inst": inst}]
+            if upstreams[sh]["strategy"] == "globalCount":
+                o.append({"k": "acquire", "srv": srv, "up": u, "inst": inst, "tokens": 1})
+            else:
+                o.append({"k": "report", "srv": srv, "up": u, "inst": inst, "uc": "full", "lc": "honest"})
+            return o
+        steps = [{"k": "hb", "srv": s, "inst": "i1"} for s in ("A", "B")] + call("A", "i1") + call("A", "i2")
+        # something is left to flush: globalAllocate conditions written through a periodic store; then the API refuses writes and A's lease of the shard fails
+        steps += [{"k": "failstore"}, {"k": "failshard", "srv": "A", "shard": sh}, {"k": "healshard", "srv": "B", "shard": sh}]
+        for k in range(16 + i % 3):
+            steps += [{"k": "sleep", "ms": 1000 + 250 * ((i + k) % 4)}] + call("A", "i1") + (call("B", "i2") if k % 3 == 2 else [])
+        steps += [{"k": "healstore"}, {"k": "sleep", "ms": 25000}, {"k": "shardobs"}] + call("A", "i1") + call("B", "i1")
+        out.append({"id": start + i, "shards": nsh, "servers": ["A", "B"], "store": "k8s", "storeSyncMs": 60000 if i % 2 == 0 else 0, "followersBlocked": True, "upstreams": upstreams, "steps": steps})
+    return out
+
+
 def leadership_scenario(sid, hist, store, suffix):
     """Leadership.tla history -> scripted-elector scenario (one server).  suffix: after the history every upstream is called
     in the state reached, then one leaderCheck period passes and everything is inspected"""
@@ -134,6 +162,7 @@ def main(tier, replay):
             lh = list({vlib.canon(h): h for h in lg.json_prints("HIST")}.values())
             rng.shuffle(lh)
             scs += [leadership_scenario(600001 + i, h, "local" if i % 4 else "k8s", False) for i, h in enumerate(lh[:nl])]
+            scs += slow_stop_scenarios(700001, 6 if tier == "quick" else 60)
         binp = os.path.join(wd, "limsrv.test")
         vlib.go_test_build("./limsrv", binp)
         traces, crashed = vlib.run_test_driver(binp, scs, wd, timeout=1500)
@@ -146,7 +175,7 @@ def main(tier, replay):
             for e in t["events"]:
                 if e["k"] in ("report", "acquire"):
                     served = "err" not in e and not e.get("rerr")
-                    evs.append({"k": "call", "srv": e["srv"], "sh": e["sh"], "up": e["up"], "inst": e["inst"], "leader": e["leader"], "served": served,
+                    evs.append({"k": "call", "srv": e["srv"], "sh": e["sh"], "up": e["up"], "inst": e["inst"], "leader": e["leader"], "served": served, "leaseok": e.get("leaseok", True),
                                 "lerr": bool(e.get("lerr")), "named": e.get("named", ""), "known": e.get("known", ""), "changed": e.get("changed", False),
                                 "err": e.get("err", "")})
                 elif e["k"] == "obs":
